@@ -104,8 +104,78 @@ class C07(Property):
                             + ([x[4]] if len(x) > 4 else []) for i, x in enumerate(sc)])
         return scripts
 
-    def corpus(self):
+    # ---- keys are independent: fixed families (run first in every tier) ---------------------------------
+    @staticmethod
+    def _uniq(scripts):
+        """values unique over the whole case also for long scripts"""
+        for t, sc in enumerate(scripts):
+            for i, o in enumerate(sc):
+                o[2] = 10000 * (t + 1) + i + 1
+        return scripts
+
+    def _wake_order_cases(self):
+        """Several keys are busy, each with parked callers; the callers parked in EVERY order; then each of the running
+        functions returns first: the callers parked behind THAT key must go on at once, whoever parked first (a wake-up
+        channel shared by all keys - one sync.Cond + Signal, one semaphore, a FIFO of waiters - hands the single wake-up to
+        the oldest waiter, which may belong to a key that is still busy: seeded C07-6)."""
         cs = []
+        for kind in (1, 0, 2):
+            shapes = [(2, 1), (3, 1)] + ([(2, 2)] if kind == 1 else [])
+            for nk, nw in shapes:
+                leaders = list(range(nk))
+                waiters = list(range(nk, nk + nk * nw))           # waiter w waits for key (w - nk) % nk + 1
+                scripts = self._mk_scripts([[(kind, t % nk + 1, 0)] for t in leaders + waiters])
+                g = 2 if kind == 2 else 1                          # gate-level steps up to the function / the block
+                for order in itertools.permutations(waiters):
+                    if kind == 2 and nk == 3 and order[0] != waiters[0] and order[-1] != waiters[0]:
+                        continue                                   # (GetResource: a third of the 3-key orders)
+                    for f in leaders:
+                        sched = [t for t in leaders for _ in range(g)] + [t for t in order for _ in range(g)] + [f]
+                        cs.append({"scripts": [[list(o) for o in sc] for sc in scripts], "sched": sched})
+        return cs
+
+    def _many_keys_cases(self):
+        """Different keys never wait for each other - for ANY set of keys, not just for a handful: HELD functions on 24
+        distinct keys are parked at their gates while 12 more threads, one after the other, run 600 calls (SingleFlight: 150,
+        GetResource: 80) on further distinct keys (each thread in ONE step of the controller: run-through ops); and one thread makes a call on another key from INSIDE its function,
+        50 levels deep, in 6 threads (300 keys are then held at once, 50 by each goroutine; SingleFlight.DoEx 160, Do and
+        GetResource 75).  Anything that maps keys onto
+        fewer lock / slot / shard identities than there are keys (striped mutexes chosen by a seeded hash: seeded C07-9; a
+        map keyed by a truncated hash) makes two of the keys collide: 300 keys held at once collide in any table of < 300
+        slots by pigeonhole and in one of 4096 slots with probability 1 - 2e-5; the 600 sequential keys miss 24 held slots
+        out of 256 with probability 1e-26.  Judged on the event log alone (logonly: the LTS has no nested calls and the
+        status table of 1200 steps would be a megabyte)."""
+        cs = []
+        NEST, THROUGH = 1, 2        # flags (5th component): called from inside the previous op's function / no gates
+        # (scripts are kept <= 50 ops: call indices are unary numbers in Check.v; the SingleFlight / GetResource cases are
+        # smaller: the cost is the size of the Coq term, 2 s of parsing per 100 KB)
+        for kind, nthr, per in ((1, 12, 50), (0, 6, 25), (2, 4, 20)):
+            held = [[(kind, k + 1, 0)] for k in range(24)]
+            runners = [[(kind, 25 + r * per + j, (0 if (r + j) % 7 else 2), None) + ((THROUGH,) if j else ()) for j in range(per)]
+                       for r in range(nthr)]
+            g = 2 if kind == 2 else 1
+            sched = [t for t in range(24) for _ in range(g)] + [24 + r for r in range(nthr) for _ in range(g + 1)]
+            cs.append({"scripts": self._uniq(self._mk_scripts(held + runners)), "sched": sched, "logonly": True})
+        for kind, nthr, depth in ((1, 6, 50), (0, 4, 40), (2, 3, 25), (3, 3, 25)):
+            # the last level parks inside its function: nthr * depth keys are held at once, depth of them by each goroutine,
+            # while one more thread makes its calls
+            chains = [[(kind, r * depth + k + 1, 0, None) + (() if k == 0 else (NEST,) if k == depth - 1 else (NEST | THROUGH,))
+                       for k in range(depth)] for r in range(nthr)]
+            other = [(kind, 900, 0), (kind, 901, 2), (kind, 902, 0)]
+            g = 2 if kind == 2 else 1
+            sched = [nthr] * g + [r for r in range(nthr) for _ in range(2 * g)] + [nthr] * (2 * g + 3)
+            cs.append({"scripts": self._uniq(self._mk_scripts(chains + [other])), "sched": sched, "logonly": True})
+        # mixed primitives in one chain (each has its own key space), a panic and an error coming out of nested calls,
+        # every level gated
+        chain = [((1, 0, 2, 3)[k % 4], k // 4 + 1 + (500 if k % 4 == 3 else 0), (0, 0, 0, 0, 2, 0, PANIC)[k % 7] if k else 0, None)
+                 + ((NEST,) if k else ()) for k in range(40)]
+        cs.append({"scripts": self._uniq(self._mk_scripts([chain, [(1, 900, 0)]])), "sched": [1] + [0] * 60, "logonly": True})
+        return cs
+
+    def corpus(self):
+        wake, many = self._wake_order_cases(), self._many_keys_cases()
+        # (the big many-keys terms are spread over the first shards of the Coq evaluation)
+        cs = many[:1] + wake[:64] + many[1:4] + wake[64:] + many[4:]
         # leader, joiner, late caller after completion (must start a new execution)
         cs.append({"scripts": self._mk_scripts([[(0, 1, 0)], [(0, 1, 0)], [(0, 1, 0)]]), "sched": [0, 1, 0, 2, 2]})
         # same thread calls twice: the second call must not see the first result
@@ -351,16 +421,26 @@ class C07(Property):
 
     # ---- execution ---------------------------------------------------------------------
     def execute(self, cases, ctx):
-        res = []
-        for i in range(0, len(cases), 2000):        # one executor process per 2000 cases
-            chunk = cases[i:i + 2000]
+        # one executor process per chunk (at most 2000 cases), three processes at a time: the executor is a single
+        # controller loop (one step = a few scheduler round trips), so the wall time is what the chunks take side by side
+        import concurrent.futures
+        n = len(cases)
+        size = min(2000, max(40, -(-n // 3)))
+        chunks = [cases[i:i + size] for i in range(0, n, size)]
+
+        def run(ix):
+            chunk = chunks[ix]
             try:
-                rc, out, rs = vlib.go_run(self.bin, chunk, tag="c07", timeout=900)
+                rc, out, rs = vlib.go_run(self.bin, chunk, tag="c07x%d" % ix, timeout=900)
             except ValueError as e:                  # output cut off in the middle of a line: the executor was killed
                 raise ExecError("c07 executor output unreadable (killed at the time limit?): %s" % e)
             if rc != 0 or len(rs) != len(chunk):
                 raise ExecError("c07 executor rc=%s: %s" % (rc, out[-2000:]))
-            res += rs
+            return rs
+
+        with concurrent.futures.ThreadPoolExecutor(max_workers=3) as ex:
+            parts = list(ex.map(run, range(len(chunks))))
+        res = [r for p in parts for r in p]
         return [self._digest(c, r) for c, r in zip(cases, res)]
 
     @staticmethod
@@ -414,7 +494,7 @@ class C07(Property):
             for t, st in enumerate(steps[-1]["st"]):
                 if st[0] == 1:
                     log.append([lastt + 1, t, 4, st[1], 0, 0, 0])
-        return {"steps": steps, "log": log, "forced": not is_cache(case)}
+        return {"steps": steps, "log": log, "forced": not is_cache(case) and not case.get("logonly")}
 
     # ---- Coq rendering --------------------------------------------------------------------
     def coq_case(self, case, obs):
@@ -430,14 +510,14 @@ class C07(Property):
                                                  clist(["%d%%nat" % t for t in s["order"]]),
                                                  clist(["(%s, %s)" % (cz(a), cz(b)) for a, b in s["st"]]))
                        for s in obs["steps"]])
-        log = clist(["mkEv %s %d%%nat %s %d%%nat %s %s %s" % (cz(e[0]), e[1], cz(e[2]), e[3], cz(e[4]), cz(e[5]), cz(e[6]))
+        log = clist(["mkEvZ %s %d %s %d %s %s %s" % (cz(e[0]), e[1], cz(e[2]), e[3], cz(e[4]), cz(e[5]), cz(e[6]))
                      for e in obs["log"]])
         ok = "true" if obs.get("forced") and not obs.get("err") else "false"
         if obs.get("err"):
             # the implementation hung / did not quiesce: not a history of the model; make both fail
             return "Conc (mkCase %s false true [mkOStep 0%%nat false [] []] [mkEv 0 0%%nat 2 0%%nat 0 0 0])" % scripts
-        if is_cache(case):
-            steps = "[]"     # the LTS is not driven for the cache call sites: only the event log is judged
+        if is_cache(case) or case.get("logonly"):
+            steps = "[]"     # the LTS is not driven for the cache call sites / nested calls: only the event log is judged
         return "Conc (mkCase %s %s %s %s %s)" % (scripts, cbool(is_cache(case)), ok, steps, log)
 
     def coq_preamble(self):
@@ -495,6 +575,20 @@ class C07(Property):
             return [{"rmseq": ops[:i] + ops[i + 1:]} for i in range(len(ops))]
         res = []
         sc, sched = case["scripts"], case["sched"]
+        # big cases (many threads / long scripts): halves first
+        if len(sc) > 8:
+            for keep in (set(range(len(sc) // 2)), set(range(len(sc) // 2, len(sc))), set(range(0, len(sc), 2))):
+                ren = {t: j for j, t in enumerate(sorted(keep))}
+                c = dict(case)
+                c["scripts"] = [sc[t] for t in sorted(keep)]
+                c["sched"] = [ren[x] for x in sched if x in ren]
+                res.append(c)
+        for t in range(len(sc)):
+            if len(sc[t]) > 4:
+                for part in (sc[t][:len(sc[t]) // 2], sc[t][len(sc[t]) // 2:]):
+                    c = dict(case)
+                    c["scripts"] = sc[:t] + [part] + sc[t + 1:]
+                    res.append(c)
         for t in range(len(sc)):
             if len(sc) > 1:
                 c = dict(case)
